@@ -1,5 +1,5 @@
 (* C19 — lemmas about the sync_timestamps model. *)
-From Coq Require Import ZArith QArith Qabs List Bool Lia Lqa Qfield.
+From Coq Require Import ZArith QArith Qabs List Bool Lia Lqa Qfield FMapPositive.
 From IBL.C19 Require Import Model.
 Import ListNotations.
 
@@ -883,3 +883,349 @@ Proof.
       - apply Qle_shift_div_r; [exact HD|]. unfold D. lra. }
     lra.
 Qed.
+
+Open Scope Z_scope.
+(* ------------------------------------------------------------------------- *)
+(* Part G — the coarse offset: cross-correlation of the occupancy vectors     *)
+(* ------------------------------------------------------------------------- *)
+Fixpoint pcount (k : positive) (keys : list positive) : Z :=
+  match keys with [] => 0 | x :: r => (if Pos.eqb x k then 1 else 0) + pcount k r end.
+
+Lemma pcount_app k a b : pcount k (a ++ b) = pcount k a + pcount k b.
+Proof. induction a as [|x r IH]; cbn [app pcount]; [reflexivity|]. rewrite IH. lia. Qed.
+
+Lemma pget_pincr m x k : pget (pincr m x) k = (if Pos.eqb x k then 1 else 0) + pget m k.
+Proof.
+  unfold pincr, pget at 1. destruct (Pos.eqb_spec x k) as [->|Hne].
+  - rewrite PositiveMap.gss. reflexivity.
+  - rewrite PositiveMap.gso by congruence. reflexivity.
+Qed.
+
+Lemma fold_pincr_get keys : forall m k, pget (fold_left pincr keys m) k = pget m k + pcount k keys.
+Proof.
+  induction keys as [|x r IH]; intros m k; cbn [fold_left pcount]; [lia|].
+  rewrite IH, pget_pincr. lia.
+Qed.
+
+Lemma pget_empty k : pget (PositiveMap.empty Z) k = 0.
+Proof. unfold pget. rewrite PositiveMap.gempty. reflexivity. Qed.
+
+Lemma vec_from_length m : forall fuel k, length (vec_from m fuel k) = fuel.
+Proof. induction fuel as [|f IH]; intros k; cbn; [reflexivity|]. now rewrite IH. Qed.
+
+Lemma vec_from_nth m : forall fuel k i, (i < fuel)%nat ->
+  nth i (vec_from m fuel k) 0 = pget m (Z.to_pos (k + Z.of_nat i + 1)).
+Proof.
+  induction fuel as [|f IH]; intros k i Hi; [lia|]. cbn [vec_from].
+  destruct i as [|i]; cbn [nth].
+  - f_equal. f_equal. lia.
+  - rewrite IH by lia. f_equal. f_equal. lia.
+Qed.
+
+(* number of (occupied x-bin i, occupied y-bin j) with i - j = lag *)
+Fixpoint pair_count (xb yb : list Z) (lag : Z) : Z :=
+  match xb with
+  | [] => 0
+  | i :: r => Z.of_nat (length (filter (fun j => i - j =? lag) yb)) + pair_count r yb lag
+  end.
+
+Lemma pcount_row n i lag yb : 1 <= lag + n -> (forall j, In j yb -> 1 <= i - j + n) ->
+  pcount (lag_key n lag) (map (fun j => lag_key n (i - j)) yb)
+  = Z.of_nat (length (filter (fun j => i - j =? lag) yb)).
+Proof.
+  intros Hl. induction yb as [|j r IH]; intros Hr; cbn [map pcount filter length]; [reflexivity|].
+  rewrite IH by (intros j' Hj'; apply Hr; right; exact Hj').
+  specialize (Hr j (or_introl eq_refl)). unfold lag_key.
+  destruct (Z.eqb_spec (i - j) lag) as [->|Hne].
+  - rewrite Pos.eqb_refl. cbn [length]. lia.
+  - destruct (Pos.eqb_spec (Z.to_pos (i - j + n)) (Z.to_pos (lag + n))) as [E|_]; [|lia].
+    exfalso. apply Hne. apply (f_equal Zpos) in E. rewrite !Z2Pos.id in E by lia. lia.
+Qed.
+
+Lemma pcount_pairs n lag yb : 1 <= lag + n -> forall xb,
+  (forall i j, In i xb -> In j yb -> 1 <= i - j + n) ->
+  pcount (lag_key n lag) (pair_keys n xb yb) = pair_count xb yb lag.
+Proof.
+  intros Hl. unfold pair_keys. induction xb as [|i r IH]; intros Hr; cbn [flat_map pair_count]; [reflexivity|].
+  rewrite pcount_app, IH by (intros i' j Hi' Hj; apply Hr; [right; exact Hi'|exact Hj]).
+  rewrite pcount_row; [reflexivity|exact Hl|]. intros j Hj. apply Hr; [left; reflexivity|exact Hj].
+Qed.
+
+(* entry k = lag + n - 1 of correlate(x, y, "full") is the number of occupied bin pairs at that lag *)
+Lemma xcorr_length n xb yb : length (xcorr n xb yb) = Z.to_nat (2 * n - 1).
+Proof. unfold xcorr. apply vec_from_length. Qed.
+
+Lemma xcorr_nth n xb yb lag :
+  (forall i, In i xb -> 0 <= i < n) -> (forall j, In j yb -> 0 <= j < n) ->
+  - (n - 1) <= lag <= n - 1 ->
+  nth (Z.to_nat (lag + n - 1)) (xcorr n xb yb) 0 = pair_count xb yb lag.
+Proof.
+  intros Hx Hy Hl. unfold xcorr. rewrite vec_from_nth by lia.
+  rewrite fold_pincr_get, pget_empty. replace (Z.to_pos (0 + Z.of_nat (Z.to_nat (lag + n - 1)) + 1)) with (lag_key n lag).
+  2:{ unfold lag_key. f_equal. lia. }
+  rewrite pcount_pairs; [lia|lia|]. intros i j Hi Hj. specialize (Hx i Hi). specialize (Hy j Hj). lia.
+Qed.
+
+(* ---- argmax / parabolic_max at a unique strict maximum ---- *)
+Open Scope Q_scope.
+
+Lemma qltb_true x y : qltb x y = true <-> x < y.
+Proof.
+  unfold qltb. rewrite negb_true_iff. split.
+  - intros H. apply Qnot_le_lt. intros Hle. apply Qle_bool_iff in Hle. congruence.
+  - intros H. destruct (Qle_bool y x) eqn:E; [|reflexivity]. apply Qle_bool_iff in E. lra.
+Qed.
+
+Lemma argmax_from_keep l : forall best bv i, (forall v, In v l -> ~ bv < v) -> argmax_from best bv l i = best.
+Proof.
+  induction l as [|v r IH]; intros best bv i H; cbn [argmax_from]; [reflexivity|].
+  destruct (qltb bv v) eqn:E.
+  - apply qltb_true in E. exfalso. exact (H v (or_introl eq_refl) E).
+  - apply IH. intros w Hw. apply H. right. exact Hw.
+Qed.
+
+Lemma argmax_from_hit m l2 : (forall v, In v l2 -> v < m) -> forall l1 best bv i,
+  bv < m -> (forall v, In v l1 -> v < m) ->
+  argmax_from best bv (l1 ++ m :: l2) i = (i + Z.of_nat (length l1))%Z.
+Proof.
+  intros H2. induction l1 as [|v r IH]; intros best bv i Hb H1.
+  - cbn [app argmax_from length]. apply qltb_true in Hb. rewrite Hb.
+    rewrite argmax_from_keep; [cbn; lia|]. intros w Hw Hlt. specialize (H2 w Hw). lra.
+  - cbn [app argmax_from length]. assert (Hv : v < m) by (apply H1; left; reflexivity).
+    assert (Hr : forall w, In w r -> w < m) by (intros w Hw; apply H1; right; exact Hw).
+    destruct (qltb bv v); rewrite IH by assumption; lia.
+Qed.
+
+Lemma argmax_first_unique (l : list Q) (p : nat) : (p < length l)%nat ->
+  (forall q, (q < length l)%nat -> q <> p -> nth q l 0 < nth p l 0) ->
+  argmax_first l = Z.of_nat p.
+Proof.
+  intros Hp Hu.
+  assert (Hsplit : l = firstn p l ++ nth p l 0 :: skipn (S p) l).
+  { clear Hu. revert p Hp. induction l as [|x r IH]; intros p Hp; cbn [length] in Hp; [lia|].
+    destruct p as [|p]; [reflexivity|]. cbn [firstn nth skipn app]. f_equal. apply IH. lia. }
+  assert (Hlen : length (firstn p l) = p) by (apply firstn_length_le; lia).
+  assert (H1 : forall v, In v (firstn p l) -> v < nth p l 0).
+  { intros v Hv. apply In_nth with (d := 0) in Hv. destruct Hv as [q [Hq <-]]. rewrite Hlen in Hq.
+    replace (nth q (firstn p l) 0) with (nth q l 0).
+    - apply Hu; lia.
+    - rewrite Hsplit at 1. rewrite app_nth1 by lia. reflexivity. }
+  assert (H2 : forall v, In v (skipn (S p) l) -> v < nth p l 0).
+  { intros v Hv. apply In_nth with (d := 0) in Hv. destruct Hv as [q [Hq <-]].
+    rewrite skipn_length in Hq.
+    replace (nth q (skipn (S p) l) 0) with (nth (S p + q) l 0).
+    - apply Hu; lia.
+    - rewrite Hsplit at 1. rewrite app_nth2 by lia. rewrite Hlen.
+      replace (S p + q - p)%nat with (S q) by lia. reflexivity. }
+  set (m := nth p l 0) in *. rewrite Hsplit. unfold argmax_first.
+  destruct (firstn p l) as [|x r] eqn:E.
+  - cbn [app]. cbn [length] in Hlen. subst p. apply argmax_from_keep.
+    intros w Hw Hlt. specialize (H2 w Hw). lra.
+  - cbn [app]. rewrite (argmax_from_hit m _ H2 r 0%Z x 1%Z).
+    + cbn [length] in Hlen. lia.
+    + apply H1. left; reflexivity.
+    + intros w Hw. apply H1. right; exact Hw.
+Qed.
+
+(* the interpolated peak is within half a sample of a unique strict maximum *)
+Lemma parabolic_max_near_unique_peak (l : list Q) (p : nat) : (p < length l)%nat ->
+  (forall q, (q < length l)%nat -> q <> p -> nth q l 0 < nth p l 0) ->
+  Qabs (fst (parabolic_max l) - inject_Z (Z.of_nat p)) <= 1 # 2.
+Proof.
+  intros Hp Hu. unfold parabolic_max. rewrite (argmax_first_unique l p Hp Hu).
+  set (ns := Z.of_nat (length l)).
+  destruct ((Z.of_nat p =? 0) || (Z.of_nat p =? ns - 1))%Z eqn:Ee.
+  - cbn [fst]. setoid_replace (inject_Z (Z.of_nat p) - inject_Z (Z.of_nat p)) with 0 by ring. cbn. discriminate.
+  - apply orb_false_iff in Ee. destruct Ee as [E0 E1]. apply Z.eqb_neq in E0, E1.
+    set (at_ := fun k : Z => nth (Z.to_nat (Z.max 0 (Z.min (ns - 1) k))) l 0).
+    assert (Hc : at_ (Z.of_nat p) = nth p l 0).
+    { unfold at_. f_equal. unfold ns. lia. }
+    assert (Hl : at_ (Z.of_nat p - 1)%Z < nth p l 0).
+    { unfold at_. replace (Z.to_nat (Z.max 0 (Z.min (ns - 1) (Z.of_nat p - 1)))) with (p - 1)%nat by (unfold ns; lia).
+      apply Hu; lia. }
+    assert (Hr : at_ (Z.of_nat p + 1)%Z < nth p l 0).
+    { unfold at_. replace (Z.to_nat (Z.max 0 (Z.min (ns - 1) (Z.of_nat p + 1)))) with (p + 1)%nat by (unfold ns in *; lia).
+      apply Hu; unfold ns in *; lia. }
+    destruct (peak3 (at_ (Z.of_nat p - 1)%Z) (at_ (Z.of_nat p)) (at_ (Z.of_nat p + 1)%Z)) as [ip mx] eqn:Ep.
+    pose proof Ep as Ep'. unfold at_ in Ep'. rewrite Ep'. cbn [fst]. setoid_replace (ip + inject_Z (Z.of_nat p) - inject_Z (Z.of_nat p)) with ip by ring.
+    pose proof (peak3_half_bin (at_ (Z.of_nat p - 1)%Z) (at_ (Z.of_nat p)) (at_ (Z.of_nat p + 1)%Z)) as Hh.
+    rewrite Ep in Hh. cbn [fst] in Hh. rewrite Hc in Hh. specialize (Hh ltac:(lra) ltac:(lra)).
+    apply Qabs_Qle_condition. exact Hh.
+Qed.
+
+Lemma coarse_delta_near_true_lag n den tbin tsa tsb L :
+  let tmin := lmin (tsa ++ tsb) in
+  let xb := occupied tbin tmin tsa in
+  let yb := occupied tbin tmin tsb in
+  (0 < tbin)%Z ->
+  (forall i, In i xb -> (0 <= i < n)%Z) -> (forall j, In j yb -> (0 <= j < n)%Z) ->
+  (- (n - 1) <= L <= n - 1)%Z ->
+  (forall lag, (- (n - 1) <= lag <= n - 1)%Z -> lag <> L ->
+     (pair_count xb yb lag < pair_count xb yb L)%Z) ->
+  exists d, coarse_delta n den tbin tsa tsb = Some d /\
+            Qabs (d - inject_Z L * tq den tbin) <= (1 # 2) * tq den tbin.
+Proof.
+  intros tmin xb yb Htb Hx Hy HL Hu. unfold coarse_delta. fold tmin. fold xb. fold yb.
+  assert (Hex : existsb (fun b => (n <=? b)%Z) (xb ++ yb) = false).
+  { apply not_true_is_false. intros E. apply existsb_exists in E. destruct E as [b [Hb Hle]].
+    apply Z.leb_le in Hle. apply in_app_or in Hb. destruct Hb as [Hb|Hb]; [specialize (Hx b Hb)|specialize (Hy b Hb)]; lia. }
+  rewrite Hex. eexists. split; [reflexivity|].
+  set (l := map inject_Z (xcorr n xb yb)).
+  set (p := Z.to_nat (L + n - 1)).
+  assert (Hlen : length l = Z.to_nat (2 * n - 1)) by (unfold l; rewrite map_length; apply xcorr_length).
+  assert (Hp : (p < length l)%nat) by (unfold p; lia).
+  assert (Hnth : forall q, (q < length l)%nat ->
+            nth q l 0 = inject_Z (pair_count xb yb (Z.of_nat q - (n - 1)))).
+  { intros q Hq. unfold l. change 0 with (inject_Z 0). rewrite map_nth. f_equal.
+    rewrite <- (xcorr_nth n xb yb (Z.of_nat q - (n - 1)) Hx Hy) by lia. f_equal. lia. }
+  pose proof (parabolic_max_near_unique_peak l p Hp) as Hpk.
+  assert (Hq : forall q, (q < length l)%nat -> q <> p -> nth q l 0 < nth p l 0).
+  { intros q Hq Hne. rewrite (Hnth q Hq), (Hnth p Hp). rewrite <- Zlt_Qlt.
+    replace (Z.of_nat p - (n - 1))%Z with L by (unfold p; lia). apply Hu; unfold p in *; lia. }
+  specialize (Hpk Hq). fold l.
+  set (ip := fst (parabolic_max l)) in *.
+  assert (Htq : 0 < tq den tbin) by (unfold tq, Qlt; cbn; lia).
+  rewrite Qred_correct.
+  setoid_replace ((ip - inject_Z n + 1) * tq den tbin - inject_Z L * tq den tbin)
+    with ((ip - inject_Z (Z.of_nat p)) * tq den tbin).
+  2:{ replace (Z.of_nat p) with (L + n - 1)%Z by (unfold p; lia).
+      replace (L + n - 1)%Z with (L + n + -1)%Z by lia. rewrite !inject_Z_plus.
+      change (inject_Z (-1)) with (- (1)). ring. }
+  rewrite Qabs_Qmult, (Qabs_pos (tq den tbin)) by lra.
+  apply Qmult_le_compat_r; [exact Hpk|lra].
+Qed.
+
+(* ---- first pass with any offset within half a bin of the true lag (integer ticks refined by k) ---- *)
+Open Scope Z_scope.
+
+Section ScaledFirstPass.
+Variables (thr Lt ea eb0 k delta' : Z) (tsa tsb : list Z) (t : Z -> Z) (la lb : nat -> Z).
+Hypothesis Hk : 0 < k.
+Hypothesis Hthr : 0 < thr.
+Hypothesis Hd : 2 * Z.abs (delta' - k * Lt) <= k * thr.
+Hypothesis Ha : forall m, (m < length tsa)%nat -> Z.abs (nth m tsa 0 - t (la m)) <= ea.
+Hypothesis Hb0 : forall j, (j < length tsb)%nat -> Z.abs (nth j tsb 0 + Lt - t (lb j)) <= eb0.
+Hypothesis Hsep : forall e e', e <> e' -> 2 * thr + ea + eb0 <= Z.abs (t e - t e').
+
+Set Default Proof Using "Hk Hthr Hd Ha Hb0 Hsep".
+Definition eb' := k * eb0 + (k * thr + 1) / 2.
+
+Lemma nth_scaled l m : nth m (map (Z.mul k) l) 0 = k * nth m l 0.
+Proof. replace 0 with (k * 0) at 1 by lia. apply map_nth. Qed.
+
+Lemma scaled_Ha : forall m, (m < length (map (Z.mul k) tsa))%nat ->
+  Z.abs (nth m (map (Z.mul k) tsa) 0 - k * t (la m)) <= k * ea.
+Proof.
+  intros m Hm. rewrite map_length in Hm. rewrite nth_scaled. specialize (Ha m Hm). nia.
+Qed.
+
+Lemma scaled_Hb : forall j, (j < length (map (Z.mul k) tsb))%nat ->
+  Z.abs (nth j (map (Z.mul k) tsb) 0 + delta' - k * t (lb j)) <= eb'.
+Proof.
+  intros j Hj. rewrite map_length in Hj. rewrite nth_scaled. specialize (Hb0 j Hj). unfold eb'.
+  assert (Z.abs (delta' - k * Lt) <= (k * thr + 1) / 2) by (apply Z.div_le_lower_bound; lia).
+  nia.
+Qed.
+
+Lemma scaled_Hsep : forall e e', e <> e' -> thr * k + k * ea + eb' <= Z.abs (k * t e - k * t e').
+Proof.
+  intros e e' Hne. specialize (Hsep e e' Hne). unfold eb'.
+  assert ((k * thr + 1) / 2 <= k * thr) by (apply Z.div_le_upper_bound; nia).
+  nia.
+Qed.
+
+Lemma scaled_first_pass_sound m j : (m < length tsa)%nat ->
+  nth m (first_pass (thr * k) delta' (map (Z.mul k) tsa) (map (Z.mul k) tsb)) (-1) = j -> 0 <= j ->
+  exists i, (i < length tsb)%nat /\ j = Z.of_nat i /\ la m = lb i.
+Proof.
+  intros Hm E Hj.
+  destruct (first_pass_sound (thr * k) delta' (k * ea) eb' (map (Z.mul k) tsa) (map (Z.mul k) tsb)
+              (fun e => k * t e) la lb scaled_Ha scaled_Hb scaled_Hsep m j) as [i [Hi H]];
+    [rewrite map_length; exact Hm|exact E|exact Hj|].
+  exists i. rewrite map_length in Hi. auto.
+Qed.
+
+Lemma scaled_first_pass_complete m i :
+  (forall j j', (j < length tsb)%nat -> (j' < length tsb)%nat -> lb j = lb j' -> j = j') ->
+  2 * (ea + eb0) + 2 <= thr ->
+  (m < length tsa)%nat -> (i < length tsb)%nat -> la m = lb i ->
+  nth m (first_pass (thr * k) delta' (map (Z.mul k) tsa) (map (Z.mul k) tsb)) (-1) = Z.of_nat i.
+Proof.
+  intros Hlb He Hm Hi Hp.
+  apply (first_pass_complete (thr * k) delta' (k * ea) eb' (map (Z.mul k) tsa) (map (Z.mul k) tsb)
+           (fun e => k * t e) la lb scaled_Ha scaled_Hb scaled_Hsep).
+  - intros j j'. rewrite map_length. apply Hlb.
+  - rewrite map_length; exact Hm.
+  - rewrite map_length; exact Hi.
+  - exact Hp.
+  - unfold eb'. assert (H2 : 2 * ((k * thr + 1) / 2) <= k * thr + 1) by (apply Z.mul_div_le; lia).
+    assert (H3 : k * (2 * (ea + eb0) + 2) <= k * thr) by (apply Z.mul_le_mono_nonneg_l; lia).
+    nia.
+Qed.
+End ScaledFirstPass.
+Unset Default Proof Using.
+
+(* from the rational bound on delta_t to the integer one used above *)
+Lemma delta_bound_ticks (d : Q) (den : positive) (tbin L : Z) :
+  (Qabs (d - inject_Z L * tq den tbin) <= (1 # 2) * tq den tbin)%Q ->
+  2 * Z.abs (Qnum d * Zpos den - Zpos (Qden d) * (L * tbin)) <= Zpos (Qden d) * tbin.
+Proof.
+  intros H. apply Qabs_Qle_condition in H. destruct H as [H1 H2].
+  destruct d as [dn dd]. unfold Qle, Qminus, Qplus, Qmult, Qopp, inject_Z, tq in H1, H2.
+  cbn [Qnum Qden] in H1, H2 |- *. rewrite ?Pos2Z.inj_mul in H1, H2.
+  assert (0 < Zpos dd) by lia. assert (0 < Zpos den) by lia.
+  nia.
+Qed.
+
+(* the whole chain: hypothesis on the trains only *)
+Lemma coarse_then_first_pass n den tbin tsa tsb L ea eb0 (t : Z -> Z) (la lb : nat -> Z) :
+  let tmin := lmin (tsa ++ tsb) in
+  let xb := occupied tbin tmin tsa in
+  let yb := occupied tbin tmin tsb in
+  0 < tbin ->
+  (forall i, In i xb -> 0 <= i < n) -> (forall j, In j yb -> 0 <= j < n) ->
+  - (n - 1) <= L <= n - 1 ->
+  (forall lag, - (n - 1) <= lag <= n - 1 -> lag <> L -> pair_count xb yb lag < pair_count xb yb L) ->
+  (forall m, (m < length tsa)%nat -> Z.abs (nth m tsa 0 - t (la m)) <= ea) ->
+  (forall j, (j < length tsb)%nat -> Z.abs (nth j tsb 0 + L * tbin - t (lb j)) <= eb0) ->
+  (forall e e', e <> e' -> 2 * tbin + ea + eb0 <= Z.abs (t e - t e')) ->
+  exists d, coarse_delta n den tbin tsa tsb = Some d /\
+    (Qabs (d - inject_Z L * tq den tbin) <= (1 # 2) * tq den tbin)%Q /\
+    (forall m j, (m < length tsa)%nat ->
+       nth m (first_pass_q den tbin d tsa tsb) (-1) = j -> 0 <= j ->
+       exists i, (i < length tsb)%nat /\ j = Z.of_nat i /\ la m = lb i) /\
+    ((forall j j', (j < length tsb)%nat -> (j' < length tsb)%nat -> lb j = lb j' -> j = j') ->
+     2 * (ea + eb0) + 2 <= tbin ->
+     forall m i, (m < length tsa)%nat -> (i < length tsb)%nat -> la m = lb i ->
+       nth m (first_pass_q den tbin d tsa tsb) (-1) = Z.of_nat i).
+Proof.
+  intros tmin xb yb Htb Hx Hy HL Hu Ha Hb0 Hsep.
+  destruct (coarse_delta_near_true_lag n den tbin tsa tsb L Htb Hx Hy HL Hu) as [d [Ed Hd]].
+  exists d. split; [exact Ed|]. split; [exact Hd|].
+  pose proof (delta_bound_ticks d den tbin L Hd) as Hdt.
+  assert (Hk : 0 < Zpos (Qden d)) by lia.
+  unfold first_pass_q. split.
+  - intros m j. exact (scaled_first_pass_sound tbin (L * tbin) ea eb0 (Zpos (Qden d)) (Qnum d * Zpos den)
+                         tsa tsb t la lb Hk Htb Hdt Ha Hb0 Hsep m j).
+  - intros Hlb He m i. exact (scaled_first_pass_complete tbin (L * tbin) ea eb0 (Zpos (Qden d)) (Qnum d * Zpos den)
+                         tsa tsb t la lb Hk Htb Hdt Ha Hb0 Hsep m i Hlb He).
+Qed.
+
+Lemma sync_full_decomposes linear n den tbin tsa tsb d r :
+  sync_full linear n den tbin tsa tsb = inr (d, r) ->
+  coarse_delta n den tbin tsa tsb = Some d /\
+  sync_rest linear den tbin tsa tsb (first_pass_q den tbin d tsa tsb) = Some r /\
+  sr_ib1 r = first_pass_q den tbin d tsa tsb.
+Proof.
+  unfold sync_full. destruct (coarse_delta n den tbin tsa tsb) as [d0|]; [|discriminate].
+  destruct (sync_rest linear den tbin tsa tsb (first_pass_q den tbin d0 tsa tsb)) as [r0|] eqn:E; [|discriminate].
+  intros H. inversion H; subst. repeat split; auto.
+  unfold sync_rest in E.
+  destruct (interp_fcn linear (map (tq den) tsa) (first_pass_q den tbin d tsa tsb) (map (tq den) tsb)) as [[f1 s1]|]; [|discriminate].
+  destruct (interp_fcn linear (map (tq den) tsa) _ (map (tq den) tsb)) as [[f2 s2]|]; [|discriminate].
+  inversion E; reflexivity.
+Qed.
+
+Lemma sync_is_sync_rest linear den tbin delta tsa tsb :
+  sync linear den tbin delta tsa tsb = sync_rest linear den tbin tsa tsb (first_pass tbin delta tsa tsb).
+Proof. reflexivity. Qed.
